@@ -9,6 +9,7 @@ misses), unrelated values.
 Oracle: refmatch() - the documented rules only.
 """
 import re
+import functools
 
 from hypothesis import strategies as st
 
@@ -59,8 +60,10 @@ PREDS = {
     'never': Pred('never', lambda t: False),
     # a partial predicate: raises TypeError on targets that cannot be compared with 0 (a rejection, not an error)
     'rawpos': Pred('rawpos', lambda t: t > 0),
+    # a predicate object without a __name__
+    'partialpos': functools.partial(lambda lo, t: isinstance(t, (int, float)) and not isinstance(t, bool) and t > lo, 0),
 }
-PRED_SAMPLE = {'isint': ['i', 4], 'pos': ['i', 2], 'shortstr': ['s', 'q'], 'never': ['none'], 'rawpos': ['i', 3]}
+PRED_SAMPLE = {'isint': ['i', 4], 'pos': ['i', 2], 'shortstr': ['s', 'q'], 'never': ['none'], 'rawpos': ['i', 3], 'partialpos': ['i', 6]}
 TYPE_SAMPLE = {'int': ['i', 3], 'str': ['s', 'st'], 'float': ['f', 2.5], 'bool': ['b', True], 'object': ['s', 'o'],
                'NoneType': ['none'], 'list': ['list', [['i', 1]]], 'dict': ['dict', [['z', ['i', 1]]]],
                'tuple': ['tuple', [['i', 1]]]}
@@ -90,7 +93,7 @@ def gen_pat(draw, d):
     if r < 44:
         return ['type', draw(st.sampled_from(sorted(TYPES)))]
     if r < 50:
-        return ['pred', draw(st.sampled_from(['isint', 'pos', 'shortstr', 'rawpos']))]
+        return ['pred', draw(st.sampled_from(['isint', 'pos', 'shortstr', 'rawpos', 'partialpos']))]
     if r < 60:
         if draw(st.sampled_from(range(4))) == 0:
             # a NON-LAST alternative that fails with a GlomError which is no MatchError (the access inside M(T[k]))
